@@ -24,7 +24,7 @@ fn header() -> String {
 }
 
 fn call(form: usize, callee: &str) -> String {
-    match form % 10 {
+    match form % 12 {
         0 => format!("    acc = acc + {callee}(acc);\n"),
         1 => format!("    let t_{form} = {callee}(acc);\n    acc = acc + t_{form};\n"),
         2 => format!("    if ({callee}(acc) > 0.5) {{ acc = acc + 1.0; }}\n"),
@@ -36,6 +36,10 @@ fn call(form: usize, callee: &str) -> String {
         7 => format!("    if (acc > 0.5) {{ acc = {callee}(acc); }} else {{ acc = acc - {callee}(1.0); }}\n"),
         // ... in an else-if ladder
         8 => format!("    if (acc > 3.0) {{ acc = {callee}(acc); }} else if (acc > 2.0) {{ acc = {callee}(2.0); }} else {{ acc = {callee}(3.0) + 1.0; }}\n"),
+        // the call is the `break if` condition of a loop
+        10 => format!("    loop {{ acc = acc + 1.0; continuing {{ break if {callee}(acc) > 0.5; }} }}\n"),
+        // ... the condition of a while loop and the initialiser / update of a for loop
+        11 => format!("    while ({callee}(acc) > 100.0) {{ acc = acc - 1.0; }}\n    for (var j = {callee}(1.0); j < 2.0; j = j + {callee}(2.0) + 1.0) {{ acc = acc + j; }}\n"),
         // ... in a nested block of one arm and a loop in the other
         _ => format!("    if (acc > 0.5) {{ {{ if (acc > 0.7) {{ acc = {callee}(acc); }} }} }} else {{ loop {{ acc = {callee}(acc); break; }} }}\n"),
     }
@@ -44,14 +48,21 @@ fn call(form: usize, callee: &str) -> String {
 /// f_i calls f_{i-1} through the *same* call form at every level (a cost that doubles per level for
 /// one form only stays invisible when the forms rotate)
 pub fn chain_uniform(depth: usize, form: usize) -> Case {
+    chain_uniform_n(depth, form, 1)
+}
+
+/// ... with `fanin` call sites of that one form per level
+pub fn chain_uniform_n(depth: usize, form: usize, fanin: usize) -> Case {
     let mut s = header();
     s.push_str("fn f_0(x: f32) -> f32 { return x + data[0]; }\n");
     for i in 1..=depth {
-        let body = call(form, &format!("f_{}", i - 1));
+        // every call site in its own block (the `let` form declares a name)
+        let one = call(form, &format!("f_{}", i - 1));
+        let body = if fanin == 1 { one } else { format!("    {{\n{one}    }}\n").repeat(fanin) };
         writeln!(s, "fn f_{i}(x: f32) -> f32 {{\n    var acc: f32 = x;\n{body}    return acc;\n}}").unwrap();
     }
     writeln!(s, "@compute @workgroup_size(1)\nfn main() {{\n    var acc: f32 = 1.0;\n    acc = acc + f_{depth}(acc);\n    data[0] = acc;\n}}").unwrap();
-    Case { family: format!("chain_uniform(depth={depth},form={form})"), items: depth + 1, depth, wgsl: s }
+    Case { family: format!("chain_uniform(depth={depth},form={form},fanin={fanin})"), items: depth + 1, depth, wgsl: s }
 }
 
 /// f_0 touches the buffer; f_i calls f_{i-1} `fanin` times, with call forms rotating from `form0`.
@@ -111,6 +122,30 @@ pub fn chain_params(depth: usize, fanin: usize, kind: usize) -> Case {
     };
     writeln!(s, "@fragment\nfn main() -> @location(0) vec4<f32> {{\n    var acc: f32 = 1.0;\n    var loc: f32 = 0.0;\n    acc = acc + f_{depth}({top_args}acc);\n    return vec4<f32>(acc);\n}}").unwrap();
     Case { family: format!("chain_params(depth={depth},fanin={fanin},kind={})", ["texture+sampler", "pointer", "texture+sampler+pointer"][kind % 3]), items: depth + 1, depth, wgsl: s }
+}
+
+/// helpers that return bool and are used *directly* as conditions (no comparison around the call):
+/// `if (b(x))`, `break if b(x);`, `while (b(x))`, `b(x) && b(y)`; b_i uses b_{i-1} `fanin` times
+pub fn chain_bool(depth: usize, fanin: usize, form: usize) -> Case {
+    let mut s = header();
+    s.push_str("fn b_0(x: f32) -> bool { return x + data[0] > 0.5; }\n");
+    for i in 1..=depth {
+        let c = format!("b_{}", i - 1);
+        let mut body = String::new();
+        for k in 0..fanin {
+            let arg = format!("acc + {k}.0");
+            match form % 5 {
+                0 => writeln!(body, "    if ({c}({arg})) {{ acc = acc + 1.0; }}").unwrap(),
+                1 => writeln!(body, "    loop {{ acc = acc + 1.0; continuing {{ break if {c}({arg}); }} }}").unwrap(),
+                2 => writeln!(body, "    while ({c}({arg})) {{ acc = acc - 1.0; break; }}").unwrap(),
+                3 => writeln!(body, "    {{ let both = {c}({arg}) && !{c}(acc); if (both) {{ acc = acc * 2.0; }} }}").unwrap(),
+                _ => writeln!(body, "    {{ let sel = select(1.0, 2.0, {c}({arg})); acc = acc + sel; }}").unwrap(),
+            }
+        }
+        writeln!(s, "fn b_{i}(x: f32) -> bool {{\n    var acc: f32 = x;\n{body}    return acc > 3.0;\n}}").unwrap();
+    }
+    writeln!(s, "@compute @workgroup_size(1)\nfn main() {{\n    var acc: f32 = 1.0;\n    if (b_{depth}(acc)) {{ data[0] = acc; }}\n}}").unwrap();
+    Case { family: format!("chain_bool(depth={depth},fanin={fanin},form={})", ["if", "break_if", "while", "logical", "select"][form % 5]), items: depth + 1, depth, wgsl: s }
 }
 
 /// the same helper graph shared by entry points of all three stages (and two of one stage)
@@ -263,8 +298,8 @@ pub fn random_dag(ch: &mut Ch) -> Case {
                 if is_void[callee] {
                     writeln!(body, "    g_{callee}(acc);").unwrap();
                 } else {
-                    let form = ch.below(10) as usize;
-                    body.push_str(&call(form * 11 + c, &format!("g_{callee}")).replace(&format!("t_{}", form * 11 + c), &format!("t{c}")));
+                    let form = ch.below(12) as usize;
+                    body.push_str(&call(form * 13 + c, &format!("g_{callee}")).replace(&format!("t_{}", form * 13 + c), &format!("t{c}")));
                 }
             }
         }
@@ -294,10 +329,15 @@ pub fn family_members(tier: Tier) -> Vec<Case> {
         v.push(chain(d, 2, 1, 0));
         v.push(chain(d, 2, 6, 4));
     }
-    for form in 0..10 {
+    for form in 0..12 {
         for d in [16usize, 48] {
             v.push(chain_uniform(d, form));
         }
+        v.push(chain_uniform_n(40, form, 2));
+    }
+    for form in 0..5 {
+        v.push(chain_bool(40, 2, form));
+        v.push(chain_bool(24, 1, form));
     }
     for kind in 0..3 {
         for d in [8usize, 24, 48] {
